@@ -1051,3 +1051,57 @@ func foldLookupUnder(as Assume, cond ssa.Value) (val bool, known bool) {
 	}
 	return constant.BoolVal(v) == truth, true
 }
+
+// globalMapFuncs: for a package-level map whose values are functions, the library function each key maps to (a method
+// expression's thunk is looked through).
+func globalMapFuncs(g *ssa.Global) map[string]*ssa.Function {
+	out := map[string]*ssa.Function{}
+	if g.Pkg == nil {
+		return out
+	}
+	init := g.Pkg.Func("init")
+	if init == nil {
+		return out
+	}
+	var mk ssa.Value
+	for _, b := range init.Blocks {
+		for _, in := range b.Instrs {
+			if st, ok := in.(*ssa.Store); ok && st.Addr == ssa.Value(g) {
+				mk = st.Val
+			}
+		}
+	}
+	for _, b := range init.Blocks {
+		for _, in := range b.Instrs {
+			mu, ok := in.(*ssa.MapUpdate)
+			if !ok || mu.Map != mk {
+				continue
+			}
+			k, ok := mu.Key.(*ssa.Const)
+			if !ok || k.Value == nil {
+				continue
+			}
+			v := mu.Value
+			if mc, ok := v.(*ssa.MakeClosure); ok {
+				v = mc.Fn
+			}
+			if ct, ok := v.(*ssa.ChangeType); ok {
+				v = ct.X
+			}
+			f, ok := v.(*ssa.Function)
+			if !ok {
+				continue
+			}
+			if f.Synthetic != "" {
+				for _, call := range ir.Calls(f) {
+					if callee := call.Common().StaticCallee(); callee != nil {
+						f = callee
+						break
+					}
+				}
+			}
+			out[k.Value.ExactString()] = f
+		}
+	}
+	return out
+}
